@@ -30,7 +30,8 @@ theorem aGet_aSet_other (l : List (κ × α)) (k k' : κ) (v : α) (h : k' ≠ k
       have : ¬ k0 = k' := fun e => h e.symm
       simp [aSet, aGet, this]
     · by_cases hk' : k0 = k'
-      · simp [aSet, aGet, hk, hk']
+      · subst hk'
+        simp [aSet, aGet, hk]
       · simp [aSet, aGet, hk, hk', ih]
 
 end AList
@@ -64,51 +65,29 @@ structure CommitOk (cr : Crypto F) (s : St F) (m : Marker F) (s' : St F) (v : Na
                         bas := setBA al.bas { d with readReward := rr, numReads := d.numReads + 1 } }
             last := aSet s.last [(m.blobber : Int), m.client, m.alloc] m }
 
+theorem bind_ok {ε α β : Type} (x : Except ε α) (f : α → Except ε β) (b : β) :
+    (x >>= f) = .ok b ↔ ∃ a, x = .ok a ∧ f a = .ok b := by
+  cases x with
+  | error e => simp [bind, Except.bind]
+  | ok a => simp [bind, Except.bind]
+
+theorem need_ok (c : Bool) (e : Err) (u : Unit) : need c e = .ok u ↔ c = true := by
+  cases c <;> simp [need]
+
+theorem getOr_ok {α : Type} (o : Option α) (e : Err) (a : α) : getOr o e = .ok a ↔ o = some a := by
+  cases o <;> simp [getOr]
+
+theorem mapErr_ok {ε α : Type} (x : Except ε α) (e : Err) (a : α) : mapErr x e = .ok a ↔ x = .ok a := by
+  cases x <;> simp [mapErr]
+
 theorem commit_inv {cr : Crypto F} {s s' : St F} {m : Marker F} {v : Nat}
     (h : commit cr s m = .ok (s', v)) : CommitOk cr s m s' v := by
   unfold commit at h
-  split at h
-  · cases h
-  · rename_i hcid
-    rw [keyOf_eq] at h
-    simp only at h
-    split at h
-    · cases h
-    · rename_i hver
-      split at h
-      · cases h
-      · rename_i al hal
-        split at h
-        · cases h
-        · rename_i hstart
-          split at h
-          · cases h
-          · rename_i hexp
-            split at h
-            · cases h
-            · rename_i d hd
-              split at h
-              · cases h
-              · rename_i sp hsp
-                split at h
-                · cases h
-                · rename_i value hval
-                  split at h
-                  · cases h
-                  · rename_i hbal
-                    split at h
-                    · cases h
-                    · rename_i sp' hdist
-                      split at h
-                      · cases h
-                      · rename_i rr hrr
-                        injection h with h
-                        injection h with h1 h2
-                        subst h2
-                        refine ⟨by simpa using hcid, ?_, al, d, sp, sp', rr, hal, by omega, by omega, hd, hsp, hval, by omega, hdist, hrr, h1.symm⟩
-                        cases hv : verify cr m (aGet s.last [(m.blobber : Int), m.client, m.alloc]) with
-                        | error e => rw [hv] at hver; exact absurd rfl (hver e)
-                        | ok u => rfl
+  simp only [bind_ok, need_ok, getOr_ok, mapErr_ok, keyOf_eq, Option.some.injEq, pure, Except.pure,
+    Except.ok.injEq, Prod.mk.injEq, decide_eq_true_eq, exists_and_left, exists_eq_left'] at h
+  obtain ⟨hcid, _, u, hver, al, hal, hstart, hexp, _, _, d, hd, sp, hsp, value, hval, hbal, _, sp', hdist, rr, hrr, hs, hv⟩ := h
+  subst hv
+  exact ⟨hcid, hver, al, d, sp, sp', rr, hal, hstart, hexp, hd, hsp, hval, hbal, hdist, hrr, hs.symm⟩
 
 end
 
